@@ -2,6 +2,7 @@ package props
 
 import (
 	"fmt"
+	"runtime"
 	"testing"
 
 	"verifharness/core"
@@ -132,6 +133,47 @@ func allocsOf(batch []*zcase, runs int) float64 {
 	})
 }
 
+// coldMallocs measures the heap allocations of running the batch ONCE right after two
+// garbage collections (which empty every sync.Pool): state hidden inside the library that a
+// caller cannot warm (a pooled scratch object, a lazily built table) shows here although a
+// warmed-up average would be zero. Minimum over three trials (noise is additive).
+func coldMallocs(batch []*zcase) uint64 {
+	var ms runtime.MemStats
+	best := ^uint64(0)
+	for trial := 0; trial < 3; trial++ {
+		runtime.GC()
+		runtime.GC()
+		runtime.ReadMemStats(&ms)
+		before := ms.Mallocs
+		for _, z := range batch {
+			z.run()
+		}
+		runtime.ReadMemStats(&ms)
+		if d := ms.Mallocs - before; d < best {
+			best = d
+		}
+		if best == 0 {
+			break
+		}
+	}
+	return best
+}
+
+// findColdAllocating bisects a batch whose cold measurement is non-zero.
+func findColdAllocating(batch []*zcase) *zcase {
+	if len(batch) == 0 || coldMallocs(batch) == 0 {
+		return nil
+	}
+	if len(batch) == 1 {
+		return batch[0]
+	}
+	mid := len(batch) / 2
+	if z := findColdAllocating(batch[:mid]); z != nil {
+		return z
+	}
+	return findColdAllocating(batch[mid:])
+}
+
 // confirmAlloc re-measures a single case 5 x 200 runs; the true count is deterministic and
 // noise is additive, so it must be non-zero every time to count.
 func confirmAlloc(z *zcase) (float64, bool) {
@@ -215,6 +257,9 @@ func CheckC19(c *core.Case) error {
 	}
 	if a, bad := confirmAlloc(z); bad {
 		return fmt.Errorf("%s allocates %.1f times per successful call on %.80q (warmed buffer, destination with spare capacity, non-allocating handler)", c.Strs[0], a, c.In)
+	}
+	if n := coldMallocs([]*zcase{z}); n > 0 {
+		return fmt.Errorf("%s allocates %d times in a successful call on %.80q made right after a garbage collection (caller-side buffers warmed; state the caller cannot warm is cold)", c.Strs[0], n, c.In)
 	}
 	return nil
 }
